@@ -24,6 +24,44 @@ QD = G.NAMES[:3] + G.QUOTED_DIMS
 BYTE_WITNESS = {"k": "attr", "name": "flag", "type": "Byte", "values": [["text", "007"]]}   # former finding (fix 78a1746)
 
 
+# open finding C11.reserved_attribute_name: pydap stores its own `Maps` (always) and `path` (members of groups) in
+# the attributes dict of a parsed variable; a declared attribute of that name is overwritten
+RESERVED_KEY = "C11.reserved_attribute_name"
+RESERVED_NAMES = ("Maps", "path", "checksum")       # checksum is pydap's own key only once data is decoded (C10)
+RESERVED_WITNESS = {"name": "d", "items": [{"k": "var", "type": "Int32", "name": "v", "dims": [], "maps": [], "attrs": [
+    {"k": "attr", "name": "Maps", "type": "String", "values": [["text", "x"]]}]}]}
+
+
+def reserved_class(path, v):
+    """the class of the finding, per declared variable: it declares an attribute named `Maps`, or named `path`
+    while it is a member of a group"""
+    return any(a["name"] == "Maps" or (a["name"] == "path" and len(path) > 0) for a in v["attrs"])
+
+
+def spec_in_reserved_class(spec):
+    return any(reserved_class(p, v) for p, v in R.walk_vars(spec))
+
+
+def add_reserved(rng, spec):
+    """every ~8th spec with attributes: one attribute of one variable is renamed to Maps / path / checksum (own PRNG
+    stream, so the specs themselves are those of earlier rounds)"""
+    cands = [(p, v) for p, v in R.walk_vars(spec) if v["attrs"]]
+    if not cands or rng.random() >= 0.12:
+        return
+    _, v = rng.choice(cands)
+    name = rng.choice(RESERVED_NAMES)
+    if name not in [a["name"] for a in v["attrs"]]:
+        rng.choice(v["attrs"])["name"] = name
+
+
+def reserved_witness_fails(fns):
+    ds, _ = parse_dump(fns, R.render_dmr(RESERVED_WITNESS))
+    try:
+        return ds["v"].attributes.get("Maps") != "x"
+    except BaseException:
+        return True
+
+
 def byte_witness_fails(fns):
     from xml.etree import ElementTree as ET
     try:
@@ -54,7 +92,7 @@ def parse_dump(fns, text):
             ds = dmr_to_dataset(text)
         except Exception as e:
             return None, "(err %s)" % err_class(e)
-        return ds, "(ok" + "".join(" " + G.rec_str(v) for v in walk(ds, BaseType)) + ")"
+        return ds, "(ok" + "".join(" " + G.rec_str(v, G.own_keys(v)) for v in walk(ds, BaseType)) + ")"
 
 
 def judge_spec(ctx, fns, spec, text, ds, dump, cls_of=None):
@@ -91,9 +129,11 @@ def judge_spec(ctx, fns, spec, text, ds, dump, cls_of=None):
                             type(var).__name__, "the variable stored as " + qfq, size=size)
             var = qvar
         exp_path = G.dap_quote("/" + "/".join(path)) if path else None
-        if var.attributes.get("path") != exp_path:
+        # the group path of a parsed variable (var.path, kept on its DummyData; attributes['path'] of a root-level
+        # variable may be a declared attribute of that name)
+        if var.path != exp_path or (path and var.attributes.get("path") != exp_path):
             ctx.oracle_fail("variable carries another group path than the one it is declared in", dict(case, var=fq),
-                            repr(var.attributes.get("path")), repr(exp_path), size=size)
+                            repr((var.path, var.attributes.get("path"))), repr(exp_path), size=size)
         exp_dt = np.dtype(R.NUMERIC[v["type"]])
         dt = np.dtype(var.dtype)
         if (dt.kind, dt.itemsize) != (exp_dt.kind, exp_dt.itemsize):
@@ -113,10 +153,13 @@ def judge_spec(ctx, fns, spec, text, ds, dump, cls_of=None):
         exp_attrs = {}
         for a in v["attrs"]:
             exp_attrs[a["name"]] = G.expected_attr(a)
-        got_attrs = {k: val for k, val in var.attributes.items() if k not in G.HIDDEN}
+        # pydap keeps two entries of its own in the same dict (Maps; path for a member of a group): they are judged
+        # above.  A *declared* attribute of such a name must still come back with its declared value.
+        got_attrs = {k: val for k, val in var.attributes.items() if k not in G.own_keys(var) or k in exp_attrs}
         if sorted(got_attrs) != sorted(exp_attrs) or not all(G.attr_equal(got_attrs[k], exp_attrs[k]) for k in exp_attrs):
             ctx.oracle_fail("attributes differ from the declared names/types/values", dict(case, var=fq),
-                            repr(got_attrs), repr(exp_attrs), size=size)
+                            repr(got_attrs), repr(exp_attrs), size=size,
+                            cls=RESERVED_KEY if reserved_class(path, v) else None)
 
 
 def spec_tags(spec):
@@ -133,9 +176,15 @@ def spec_tags(spec):
 
 def check_specs(ctx, fns, n, label, **kw):
     rng = ctx.rng(label)
+    rng_res = ctx.rng(label + "-reserved-attr-names")
     cases, tree_cases, vars_cases, find_cases = [], [], [], []
     for i in range(n):
         spec = G.gen_spec(rng, **kw)
+        add_reserved(rng_res, spec)
+        for p, v in R.walk_vars(spec):
+            for a in v["attrs"]:
+                if a["name"] in RESERVED_NAMES:
+                    ctx.tags["%s:attr-named-%s:%s" % (label, a["name"], "group" if p else "root")] += 1
         text = R.render_dmr(spec, xml_decl=rng.random() < 0.5)
         ds, dump = parse_dump(fns, text)
         et = G.et_of_dmr(text)
@@ -157,7 +206,10 @@ def check_specs(ctx, fns, n, label, **kw):
                   sample={"dmr": text[:400]} if i < 2 else None)
     ctx.correspond("dmr_to_dataset (walk dump)", cases)
     ctx.correspond("spec rendering = ElementTree's tree (renderRoot)", tree_cases)
-    ctx.correspond("declared variables = dmr_to_dataset (expectVars, C11_parse)", vars_cases)
+    # inside the class of the open finding the declared records are NOT what pydap returns (C11_parse_refuted);
+    # the model itself (dmr-walk above) follows the code there too and must agree
+    ctx.correspond("declared variables = dmr_to_dataset (expectVars, C11_parse)", vars_cases,
+                   known_class=lambda m: RESERVED_KEY if spec_in_reserved_class(m["spec"]) else None)
     ctx.correspond("dataset[group path/name] (findVar, C11_addressable)", find_cases)
 
 
@@ -201,7 +253,7 @@ def doc_order_dump(fns, spec, ds, dump):
     for p, v in R.walk_vars(spec):
         key = G.dap_quote(R.fqn(p, v["name"]) if p else v["name"])
         got = by_key.get(key, [])
-        out += " " + (G.rec_str(got[0]) if len(got) == 1 else "(%s x%d)" % (G.hexs(key), len(got)))
+        out += " " + (G.rec_str(got[0], G.own_keys(got[0])) if len(got) == 1 else "(%s x%d)" % (G.hexs(key), len(got)))
     if sum(len(x) for x in by_key.values()) != len(list(R.walk_vars(spec))):
         out += " (extra)"
     return out + ")"
@@ -450,13 +502,15 @@ def run(ctx):
                 "single-attribute documents and server-side datasets with groups, every second one with attributes "
                 "(ints, floats, strings, numpy scalars, lists) and Maps")
     ctx.assumptions = ["xml.etree.ElementTree (text -> element tree) is trusted: the model receives ET's tree",
-                       "names do not start with 'dap4' and contain no '/'; strings travel as UTF-8 bytes; attribute "
-                       "names avoid pydap's own keys path/Maps/checksum",
+                       "names do not start with 'dap4' and contain no '/'; strings travel as UTF-8 bytes; declared "
+                       "attributes named Maps / path / checksum are generated (open finding "
+                       "C11.reserved_attribute_name: Maps anywhere and path in a group are overwritten by pydap's own entries)",
                        "float(text) is Python's: float attribute texts are compared as repr(float)"]
     ctx.proof_phase()
     fns = load()
     explore(ctx, fns, ctx.tier)
-    return ctx.finish(search=lambda c: explore(c, fns, "thorough"))
+    return ctx.finish(search=lambda c: explore(c, fns, "thorough"),
+                      witnesses={RESERVED_KEY: lambda: reserved_witness_fails(fns)})
 
 
 def explore(ctx, fns, tier):
